@@ -370,9 +370,13 @@ class Call:
             # expression or a name bound to a number)
             result = np.ones(len(data_mask.index)) * self._intermediate_data.trials[0]
         else:
-            # Extract name of the second component
-            name = self.call.args[1].name
-            values = data_mask[name]
+            # Evaluate the trials argument on the new data. It may be passed by position or by
+            # keyword, and it may be a name, an expression or a call.
+            if "trials" in self.call.kwargs:
+                trials = self.call.kwargs["trials"]
+            else:
+                trials = self.call.args[1]
+            values = trials.eval(data_mask, self.env)
             if isinstance(values, pd.Series):
                 values = values.values
             result = values
